@@ -3,6 +3,8 @@ from engine.anl.origin import fmt, subterms, strip_bb
 from .common import S, co, calls_norm, is_call_term, var_name, render_path, stores_through, effectful_calls, const_strs
 from . import C02
 
+from .common import ok_return_blocks as _okret
+
 EXPLANATION = (
     "Static decision of the push/adopt plumbing: (R19.1) the process-wide default is replaceable — PaddingFactory::update_default stores "
     "the parsed scheme through a replaceable cell (not a write-once OnceLock/OnceCell::set, which fails for ever once default() or start-up "
@@ -70,7 +72,7 @@ def r1_replaceable(ctx):
            "default() does not read the cell update_default writes (%s vs %s): a pushed scheme never becomes the default" % (sorted(read), sorted(written)))
     # an accepted push is always installed: every Ok return is preceded by the store
     cfgu = ctx.cfg(up)
-    ok_rets = [bi for kind, bi, si, rv in up.defs().get(0, []) if kind == "assign" and rv["r"] == "aggregate" and rv["kind"].get("variant") == "Ok"]
+    ok_rets = _okret(up, ctx.origins(up))
     store_blocks = [s[0] for s in stores] + [c.bb for c in swaps]
     if store_blocks and ok_rets:
         okall, p = cfgu.must_pass([0], ok_rets, via_blocks=store_blocks)
